@@ -150,8 +150,17 @@ SPECIAL_DOCS = [
 ]
 
 
+SPECIAL_DOCS.append(
+    # the NEAREST xml:lang decides, also when it does not match and an outer one would, also the empty one (round-8 seed C05-L)
+    "<r xml:lang='en'><i id='p1'>t<a xml:lang='de'><i id='d1' a='x'>u</i><c xml:lang='en-GB'><i id='q1'/></c><b xml:lang=''><i id='n1'>v</i></b></a>"
+    "<a xml:lang='EN-us'><i id='r2'>w</i></a></i><c xml:lang='fr'><!--c--><i id='f1' xml:lang='en'/></c></r>")
+
+
 def special_stream():
     ex = []
+    for L in ("en", "EN", "de", "en-GB", "en-gb", "fr", "", "e", "en-", "en-US", "us"):
+        ex += ["//*[lang('%s')]" % L, "count(//node()[lang('%s')])" % L, "//@*[lang('%s')]" % L, "boolean(//i[@id='n1'][lang('%s')])" % L,
+               "//text()[lang('%s')]" % L, "//i[lang('%s')]/@id" % L]
     for start in ("//*", "/r/*", "/descendant::*", "//i", "//a", "/r//*[1]", "/descendant-or-self::node()", "//b/*"):
         for ns in ("namespace::*", "namespace::xml", "namespace::p", "namespace::q", "namespace::node()"):
             for tail in ("..", "parent::*", "parent::node()/@*", "../..", "ancestor::*", "ancestor-or-self::node()", "self::node()/..",
@@ -371,6 +380,11 @@ def run_c05(chk):
                 mfail.append((t, e, x, y, z))
             elif x != z and not ("namespace::" in e):
                 tdis.append((t, e, x, z))
+    # the value of an expression does not depend on what was asked before: after expressions nested beyond the limit were
+    # refused, expressions within the limit still evaluate to what they evaluate to when asked first (round-8 seed C05-K left the
+    # depth counter raised on the refusing path)
+    for rdoc_, label_, e_, msg_ in recovery_after_refusals(chk, expr_depth_limit(), xp_families()):
+        mfail.append((rdoc_, e_ + "   [asked after deeper expressions were refused]", msg_, "the value it has when asked first", ""))
     chk.cov["documents"] = ndocs
     chk.cov["document_features"] = dict(sorted(dfeats.items()))
     chk.cov["expression_features"] = dict(sorted(feats.items()))
@@ -815,6 +829,11 @@ def run_c07(chk):
                 mfail.append((t_, "dom history: " + " ".join(ops_[:i]), "a node-set on the edited document differs from the same on a "
                               "fresh parse of its serialization", q[:600]))
                 break
+    # ... and the same after calls made WITHOUT reading anything in between (see domchecks.quiet_stream)
+    qm_, qt_, qn_ = DC.quiet_stream(chk, rng, 200 if thorough else 80, queries=DC.battery("//node()[not(self::text())];(//*|//comment())[last()]"))
+    for t_, ops_, i_, why_, det_ in qm_:
+        mfail.append((t_, "dom history: " + " ".join(ops_), why_, det_))
+    chk.cov["quiet_histories"] = qn_
     # ... and namespace nodes after a declaration came to stand on an element as an attribute NODE (createAttribute, value, query,
     # setAttributeNode): each namespace node once, the same set a fresh parse gives
     nsc_ = DC.ns_node_cases(DC.NSDOCS_)
@@ -827,6 +846,23 @@ def run_c07(chk):
                 mfail.append((t_, "dom history: " + " ".join(ops_[:i]), "a node-set of namespace nodes on the edited document differs from "
                               "the same on a fresh parse of its serialization (a node lost or merged)", q[:600]))
                 break
+    # the namespace nodes of DIFFERENT elements that come from ONE declaration are different nodes: counted each, united without
+    # loss, in either order (counts and unions only - the ORDER of namespace nodes is the recorded finding namespace-nodes;
+    # round-8 seed C07-K removed duplicates by node id, which such nodes share)
+    nsdocs = ["<r xmlns:p='urn:p'><a/><b><c/></b></r>", "<r xmlns:p='urn:p' xmlns='urn:d'><a xmlns:q='urn:q'><c/></a><b xmlns:p='urn:p2'/></r>"]
+    nsq = ["count(//namespace::p)", "count(//a/namespace::p | //b/namespace::p)", "count(//b/namespace::p | //a/namespace::p)",
+           "count((//namespace::p)[3])", "count(//namespace::*)", "count(//*/namespace::xml)", "count(//a/namespace::* | //b/namespace::*)",
+           "count(//a/namespace::* | //a/namespace::*)", "count(//c/namespace::* | //namespace::q)", "count(//namespace::*[name()='p'])",
+           "count(//*[namespace::p = 'urn:p'])", "count((//a/namespace::p | //b/namespace::p)/..)", "count(//namespace::p/parent::*)"]
+    ni, nm_ = XP.run_queries("qfresh", [(d_, "", nsq) for d_ in nsdocs], quirks="rz")
+    for d_, a_, m_ in zip(nsdocs, ni, nm_):
+        fa_, _, _ = _fields(a_, len(nsq))
+        fm_, _, _ = _fields(m_, len(nsq))
+        for e_, x_, y_ in zip(nsq, fa_, fm_):
+            chk.count(["nscount", d_, e_], nontrivial=True)
+            if x_ != y_:
+                mfail.append((d_, e_, "namespace nodes of different elements are counted / united wrongly (a node lost or counted twice)",
+                              x_ + " expected " + y_))
     # node-sets of DIFFERENT node kinds united: commutative, and nothing is lost - count(A|B) = count(A) + count(B) when the
     # kinds differ (an element and its own namespace or attribute nodes are distinct nodes)
     KSETS = [("//*", "e"), ("//@*", "a"), ("//namespace::*", "n"), ("//text()", "t"), ("//comment()", "c"), ("/*", "e"),
@@ -959,7 +995,11 @@ def run_c08(chk):
              ("3 > 2 > 1", "b"), ("1 + 1 = 2 and 2 * 2 = 4", "b"), ("-2 * 3", "n"), ("8 div 2 div 2", "n"), ("2 + 3 mod 2", "n"),
              ("1 | 2", "e"), ("count(//a | //b) + 1", "n"), ("-count(//a)|//b", "e"), ("1 - 2 + 3", "n"), ("2 = 2 != false()", "b"),
              ("text()", "N"), ("node()", "N"), ("comment()", "N"), ("processing-instruction()", "N"), ("count(text())", "n"),
-             ("a | text()", "N"), ("*/text()", "N"), ("//text()[1]", "N"), ("(text())", "N")]
+             ("a | text()", "N"), ("*/text()", "N"), ("//text()[1]", "N"), ("(text())", "N"),
+             # ... also the one node-type test that takes an argument (round-8 seed C08-L read it as a function call)
+             ("processing-instruction('pi')", "N"), ("count(processing-instruction('pi'))", "n"), ("*[processing-instruction('pi')]", "N"),
+             ("processing-instruction('pi') | a", "N"), ("(processing-instruction(\"tg\"))[1]", "N"), ("//a[processing-instruction( 'pi' )]", "N"),
+             ("processing-instruction('pi')/..", "N"), ("child::processing-instruction('pi')", "N")]
     casts = construct_asts()
     for cd in CONSTRUCT_DOCS:
         for i in range(0, len(casts), 8):
@@ -1137,6 +1177,15 @@ def run_c10(chk):
     for n_ in (lim_, lim_ - 1):
         SCOPE_DOCS.append("<r xmlns:p='urn:u1' xmlns='urn:u2' xml:lang='en'>" + "<a>" * (n_ - 3) +
                           "<p:a xml:lang='de' p:x='1'><a id='1' xml:space='preserve'/></p:a>" + "</a>" * (n_ - 3) + "</r>")
+    # several attributes of one local part under different prefixes, and ordinary attributes spelled like a prefix in use or like
+    # `xmlns` under a prefix: names are compared as expanded names, declarations are only what is written `xmlns` / `xmlns:p`
+    # (round-8 seeds C10-K: one node per local part in the attribute map; C10-L: any attribute of that local part taken for the
+    # declaration; C08-K: `@p:k` looked up by local part)
+    SCOPE_DOCS += ["<r xmlns:a='urn:u1' xmlns:b='urn:u2'><e a:x='1' b:x='2' x='3' b:y='4'/><e b:x='5' x='6'/><e x='7' a:x='8'/></r>",
+                   "<r xmlns:p='urn:u1'><e p='1' q='urn:zz'><p:a/><f id='7' xmlns:id='urn:u2' id:x='8'/></e><p:a p='urn:u2'/></r>",
+                   "<r xmlns='urn:u1'><e a:xmlns='urn:zz' xmlns:a='urn:u2'><a/></e><e xmlns:a='urn:u2' a:p='1'><a/></e></r>"]
+    SCOPE_Q += ["//e/@p:x", "//e/@q:x", "//e/@x", "count(//e/@*)", "//e[@q:x = 5]", "string(//e[3]/@p:x)", "//e/attribute::p:x", "//e/@q:*", "//@q:y",
+                "//p:a", "//f/@q:x", "namespace-uri(//f/@*[2])", "//e/p:a", "//q:a", "//@p", "count(//p:*)", "//e/a", "//e/p:a | //e/q:a"]
     SCOPE_Q += ["//@xml:lang", "//@xml:space", "count(//@xml:*)", "namespace-uri((//@xml:space)[last()])", "//*[lang('de')]",
                 "name((//*)[last()]/namespace::xml)", "string((//*)[last()]/namespace::p)", "(//*)[last()]/@xml:space"]
     for sd in SCOPE_DOCS:
@@ -1367,6 +1416,16 @@ def run_c19(chk):
     for t, x, y in zip(texts + texts, p1, p2):
         if x != y:
             mfail.append((t, "parse / print twice", "parsing the same text twice gives different documents", x[:200] + " / " + y[:200]))
+    # the same text parsed twice gives EQUAL documents (`==` of both document types), not only equal dumps and serializations
+    # (round-8 seed C19-L compared references to a declared entity by the identity of the declaration)
+    eqdocs = texts[:len(lims)] + texts[len(lims):len(lims) + 60] + [
+        "<!DOCTYPE r [<!ENTITY e 'v'><!ENTITY f '&e;w'><!NOTATION n SYSTEM 's'><!ENTITY u SYSTEM 'u.bin' NDATA n><!ATTLIST r d CDATA '&e;' k ENTITY #IMPLIED>]>"
+        "<r a='&e;&f;' k='u'>&e;<a>&f;</a><![CDATA[c]]><?p d?><!--c--></r>"]
+    for t_, o_ in zip(eqdocs, lib.run_lines(h, [lib.req("parse2", t_) for t_ in eqdocs], timeout=600, per_line_resume=True)):
+        chk.count(["parse2", t_], nontrivial=o_.startswith("ok "))
+        if o_.startswith("ok ") and o_ != "ok eq=1 eqdom=1 print=1":
+            mfail.append((t_[:2000], "parse the same text twice and compare the two documents", "parsing the same text twice gives documents "
+                          "that are not equal", o_))
     sw_fail, sw_n = context_switch_stream(chk, rng, h, texts[len(lims):], 120 if thorough else 40)
     mfail += sw_fail
     chk.cov["context_switched_between_documents"] = sw_n
@@ -1412,6 +1471,10 @@ def run_c19(chk):
                 mfail.append((t, "dom history: " + " ".join(ops[:i]), "after an edit a query answers with what an earlier query had computed "
                               "(the edited document and a fresh parse of its serialization give different answers)", q[:600]))
                 break
+    qm_, qt_, qn_ = DC.quiet_stream(chk, rng, 150 if thorough else 60)
+    for t_, ops_, i_, why_, det_ in qm_:
+        mfail.append((t_, "dom history: " + " ".join(ops_), why_, det_))
+    chk.cov["quiet_histories"] = qn_
     chk.cov["edited_document_states_queried"] = edited_states
     chk.cov["sequences_with_a_failing_query"] = with_failure
     chk.cov["disagreements_checked"] = len(tdis)
